@@ -877,8 +877,13 @@ class C03(Check):
             memo[case] = tuple(self.evaluate(case))
         return memo[case]
 
+    _work = [0]  # candidate evaluations spent on minimising in this process
+    WORK_CAP = 40000
+
     def _minimise(self, clause, case):
         memo = self._min_memo
+        if self._work[0] > self.WORK_CAP:
+            return memo.get((clause, case), case)
         path = []
         cur = case
         while True:
@@ -889,6 +894,7 @@ class C03(Check):
             path.append(key)
             nxt = None
             for cand in self.shrink(cur):
+                self._work[0] += 1
                 if any(c == clause for c, _d in self._fails_of(cand)):
                     nxt = cand
                     break
